@@ -1312,6 +1312,8 @@ class dictable(Dict):
             raise ValueError('x must be columns %s'%x)
         agg = as_list(agg)
         x = as_tuple(x)
+        if len(self) == 0:
+            return self[list(x)] ## no rows: the pivot table has the x columns and no y column
         xykeys = x + as_tuple(y)
         xys, ids = self._listby(xykeys)
         zs = self[z]
